@@ -196,45 +196,60 @@ def clone_with_trim_threshold(packets_mod, threshold, name="ccsds_generator"):
     return new
 
 
+def library_modules(mod):
+    """``mod`` itself and, if it is (or has become) a package, its loaded submodules."""
+    import sys as _sys
+    pre = mod.__name__ + "."
+    return [mod] + [m for n, m in sorted(_sys.modules.items()) if n.startswith(pre) and isinstance(m, types.ModuleType)]
+
+
 class TrimKnob:
-    """Context manager installing the clone as packets.ccsds_generator (and restoring it)."""
+    """Context manager installing clones of the functions that contain the trim threshold (and restoring them). Works on
+    packets.py as a module and as a package: the constant is looked for in every loaded submodule, and re-exported
+    aliases of a cloned function (``from ._framing import ccsds_generator`` in ``__init__``) are redirected as well."""
 
     def __init__(self, packets_mod, threshold):
         self.mod = packets_mod
         self.threshold = threshold
-        self.orig = None
         self.active = False
+        self.restore = []            # (module dict, name, original value)
 
     def __enter__(self):
-        self.named = {}
         if self.threshold is None:
             return self
-        # (a) the literal inside the code object of the framer, or of any other function defined at the top level of the
+        mods = library_modules(self.mod)
+        replaced = {}                # id(original function) -> clone
+        # (a) the literal inside the code object of the framer, or of any other function defined at the top level of a
         #     module (helpers the framer was split into) -> clones with the constant replaced, installed under their names
-        self.origs = {}
-        for name, obj in list(self.mod.__dict__.items()):
-            if isinstance(getattr(obj, "__verif_orig__", obj), types.FunctionType) and \
-                    getattr(obj, "__module__", None) == self.mod.__name__:
-                clone = clone_with_trim_threshold(self.mod, self.threshold, name)
-                if clone is not None:
-                    self.origs[name] = obj
-                    self.mod.__dict__[name] = clone
-                    self.active = True
+        for m in mods:
+            for name, obj in list(m.__dict__.items()):
+                if isinstance(getattr(obj, "__verif_orig__", obj), types.FunctionType) and \
+                        getattr(obj, "__module__", None) == m.__name__:
+                    clone = clone_with_trim_threshold(m, self.threshold, name)
+                    if clone is not None:
+                        self.restore.append((m.__dict__, name, obj))
+                        m.__dict__[name] = clone
+                        replaced[id(obj)] = clone
+                        self.active = True
+        # aliases of a cloned function in the other modules of the package (re-exports)
+        for m in mods:
+            for name, obj in list(m.__dict__.items()):
+                if id(obj) in replaced and m.__dict__[name] is obj:
+                    self.restore.append((m.__dict__, name, obj))
+                    m.__dict__[name] = replaced[id(obj)]
         # (b) the same value kept as a module-level named constant -> set it for the duration of the run
-        for name, val in list(self.mod.__dict__.items()):
-            if type(val) is int and val == TRIM_CONST and not name.startswith("__"):
-                self.named[name] = val
-                self.mod.__dict__[name] = self.threshold
-                self.active = True
+        for m in mods:
+            for name, val in list(m.__dict__.items()):
+                if type(val) is int and val == TRIM_CONST and not name.startswith("__"):
+                    self.restore.append((m.__dict__, name, val))
+                    m.__dict__[name] = self.threshold
+                    self.active = True
         return self
 
     def __exit__(self, *exc):
-        for name, obj in getattr(self, "origs", {}).items():
-            self.mod.__dict__[name] = obj
-        self.origs = {}
-        for name, val in self.named.items():
-            self.mod.__dict__[name] = val
-        self.named = {}
+        for d, name, obj in reversed(self.restore):
+            d[name] = obj
+        self.restore = []
         self.active = False
         return False
 
